@@ -1,0 +1,55 @@
+//go:build verif
+
+package rpc
+
+import (
+	"net"
+	"net/http"
+	"sync"
+
+	"golang.org/x/net/context"
+	"google.golang.org/grpc"
+)
+
+// Verification hooks (build tag verif): let an external harness reach the JSON-RPC access-control
+// middleware and the gRPC server with an arbitrary remote address, and reset the package-level
+// access lists between configurations.
+
+var verifHandlers sync.Map
+
+func verifExposeHandler(j *JSONRPCServer, h http.Handler) { verifHandlers.Store(j, h) }
+
+// VerifHandler returns the complete HTTP handler (middleware included) built by Listen.
+func VerifHandler(j *JSONRPCServer) http.Handler {
+	if h, ok := verifHandlers.Load(j); ok {
+		return h.(http.Handler)
+	}
+	return nil
+}
+
+// VerifRegisterName registers an extra receiver on the JSON-RPC server.
+func VerifRegisterName(j *JSONRPCServer, name string, rcvr interface{}) error {
+	return j.s.RegisterName(name, rcvr)
+}
+
+// VerifServeGrpc serves the real gRPC server (interceptors included) on the given listener.
+func VerifServeGrpc(g *Grpcserver, l net.Listener) error { return g.s.Serve(l) }
+
+// VerifStopGrpc stops the gRPC server.
+func VerifStopGrpc(g *Grpcserver) { g.s.Stop() }
+
+// VerifGrpcAuth calls the unary gate directly.
+func VerifGrpcAuth(ctx context.Context, fullMethod string) error {
+	return auth(ctx, &grpc.UnaryServerInfo{FullMethod: fullMethod})
+}
+
+// VerifResetACL clears the package-level access lists (they are only ever added to by InitCfg).
+func VerifResetACL() {
+	grpcFuncListLock.Lock()
+	defer grpcFuncListLock.Unlock()
+	remoteIPWhitelist = make(map[string]bool)
+	jrpcFuncWhitelist = make(map[string]bool)
+	grpcFuncWhitelist = make(map[string]bool)
+	jrpcFuncBlacklist = make(map[string]bool)
+	grpcFuncBlacklist = make(map[string]bool)
+}
